@@ -243,6 +243,79 @@ func main() {
 			emit("roundtrip", id, true, "")
 		}()
 	}
+	// (b') batch shapes: every (Data class, Extensions class) pair at every position of a three-entry StoreLogs call, between
+	// small neighbours and between neighbours that carry extensions themselves; read back at once and after a restart
+	func() {
+		id := "wal-batchpos"
+		defer guard("wal", id)
+		dir, _ := os.MkdirTemp("", "verif-codec-")
+		defer os.RemoveAll(dir)
+		lg := hclog.NewNullLogger()
+		w, err := wal.Open(dir, wal.WithSegmentSize(4*1024*1024), wal.WithLogger(lg))
+		if err != nil {
+			emit("wal", id, false, "Open: "+err.Error())
+			return
+		}
+		defer func() { w.Close() }()
+		var all []*raft.Log
+		idx := uint64(1)
+		for dc := 0; dc <= 9; dc++ {
+			for ec := 0; ec <= 9; ec++ {
+				for pos := 0; pos < 3; pos++ {
+					nbExt := 0
+					if (dc+ec+pos)%2 == 1 {
+						nbExt = 3
+					}
+					batch := make([]*raft.Log, 3)
+					for j := range batch {
+						c := Case{Idx: 0, Term: 1, Typ: 0, Data: 2, Ext: nbExt, Time: 1}
+						if j == pos {
+							c = Case{Idx: 0, Term: 2, Typ: 1, Data: dc, Ext: ec, Time: 2}
+						}
+						batch[j] = build(c)
+						batch[j].Index = idx
+						idx++
+					}
+					if err := w.StoreLogs(batch); err != nil {
+						emit("wal", id, false, fmt.Sprintf("StoreLogs of a batch (data class %d, ext class %d at position %d): %v", dc, ec, pos, err))
+						return
+					}
+					all = append(all, batch...)
+					for _, l := range batch {
+						got := new(raft.Log)
+						if err := w.GetLog(l.Index, got); err != nil {
+							emit("wal", id, false, fmt.Sprintf("batch (data class %d, ext class %d at position %d): GetLog(%d): %v", dc, ec, pos, l.Index, err))
+							return
+						}
+						if d := equalLog(l, got); d != "" {
+							emit("wal", id, false, fmt.Sprintf("batch (data class %d, ext class %d at position %d): entry %d: %s", dc, ec, pos, l.Index, d))
+							return
+						}
+					}
+				}
+			}
+		}
+		if err := w.Close(); err != nil {
+			emit("wal", id, false, "Close: "+err.Error())
+			return
+		}
+		if w, err = wal.Open(dir, wal.WithSegmentSize(4*1024*1024), wal.WithLogger(lg)); err != nil {
+			emit("wal", id, false, "reopen: "+err.Error())
+			return
+		}
+		for _, l := range all {
+			got := new(raft.Log)
+			if err := w.GetLog(l.Index, got); err != nil {
+				emit("wal", id, false, fmt.Sprintf("after reopen: GetLog(%d): %v", l.Index, err))
+				return
+			}
+			if d := equalLog(l, got); d != "" {
+				emit("wal", id, false, fmt.Sprintf("after reopen: entry %d: %s", l.Index, d))
+				return
+			}
+		}
+		emit("wal", id, true, "")
+	}()
 	// (b)+(c) through the WAL: consecutive indexes starting just below varint boundaries
 	lg := hclog.NewNullLogger()
 	for _, start := range []uint64{1, 1<<7 - 2, 1<<14 - 2, 1<<35 - 3, 1<<56 - 2, math.MaxUint64 - 40} {
